@@ -200,8 +200,90 @@ fn to_r(i: &fmrun::Inst) -> rrun::Inst {
     rrun::Inst { n: i.n, m: i.m, cap: i.cap, t: i.t, values: i.values.clone(), promises: i.promises.clone(), blindings: i.blindings.clone(), seed: i.seed, ctx: i.ctx.clone() }
 }
 
+/// **Coincidences between caller inputs.** Every input of a valid (statement, witness) pair is legal on its own and in
+/// any combination: value equal to the promise, masks that are zero / all equal / equal to the value as a scalar, a
+/// recovery seed that is 0, 1, equal to a mask component, to the value or to the promise, a commitment that therefore
+/// equals `p·h` or the identity. For each combination: the prover proves, every mode accepts, the mask comes back.
+/// Called from the checks of C01, C06 and C09 with their own oracle names.
+pub fn coincidences(opts: &Opts, out: &mut Out, prop: &str) -> usize {
+    let mut rng = chacha(opts.seed, 7700);
+    let mut count = 0usize;
+    let configs: Vec<(usize, usize, usize)> = if opts.thorough { vec![(8, 1, 1), (8, 1, 3), (4, 2, 2), (64, 1, 2), (2, 1, 6), (16, 4, 1)] } else { vec![(8, 1, 1), (8, 1, 3), (4, 2, 2), (64, 1, 2)] };
+    for (n, m, t) in configs {
+        let max = if n == 64 { u64::MAX } else { (1u64 << n) - 1 };
+        let vps: Vec<(u64, Option<u64>)> = vec![(0, None), (0, Some(0)), (5 & max, Some(5 & max)), (5 & max, Some(4 & max)), (max, None), (max, Some(max)), (1, Some(1)), (max, Some(1))];
+        for (v, p) in vps {
+            for mask_kind in 0..7usize {
+                for seed_kind in 0..6usize {
+                    let seeded = m == 1 && seed_kind > 0;
+                    if m > 1 && seed_kind > 0 {
+                        continue;
+                    }
+                    if mask_kind >= 4 && !seeded {
+                        continue;
+                    }
+                    let seed = match seed_kind {
+                        0 => None,
+                        1 => Some(Scalar::random(&mut rng)),
+                        2 => Some(Scalar::ZERO),
+                        3 => Some(Scalar::ONE),
+                        4 => Some(Scalar::from(v)),
+                        _ => Some(Scalar::from(p.unwrap_or(7))),
+                    };
+                    let sd = seed.unwrap_or(Scalar::ONE);
+                    let mask: Vec<Scalar> = match mask_kind {
+                        0 => vec![Scalar::ZERO; t],
+                        1 => (0..t).map(|_| Scalar::random(&mut rng)).collect(),
+                        2 => vec![Scalar::from(v); t],
+                        3 => vec![Scalar::random(&mut rng); t],
+                        4 => vec![sd; t],
+                        5 => (0..t).map(|k| if k == 0 { sd } else { Scalar::random(&mut rng) }).collect(),
+                        _ => (0..t).map(|k| if k == t - 1 { sd } else { Scalar::random(&mut rng) }).collect(),
+                    };
+                    let mut inst = fmrun::random_inst(n, m, m, t, 4, false, &mut rng);
+                    let j = m - 1;
+                    inst.values[j] = v;
+                    inst.promises[j] = p;
+                    inst.blindings[j] = mask;
+                    inst.seed = if seeded { seed } else { None };
+                    let key = format!("coincidence {} value={} promise={:?} mask-kind={} seed-kind={}", inst.describe(), v, p, mask_kind, seed_kind);
+                    count += 1;
+                    for ristretto in [false, true] {
+                        if ristretto && (mask_kind + seed_kind + (v as usize)) % 3 != 0 {
+                            continue; // a third of the combinations also over the curve
+                        }
+                        let (proved, verdicts): (bool, Vec<(bool, bool)>) = if !ristretto {
+                            let stmt = inst.statement();
+                            match inst.prove(&mut rng) {
+                                Err(_) => (false, vec![]),
+                                Ok(proof) => (true, fmrun::ACTIONS.iter().map(|a| { let r = fmrun::verify_one(&inst, &stmt, &proof, *a); let exp = if *a != VerifyAction::VerifyOnly && inst.seed.is_some() { Some(&inst.blindings[0]) } else { None }; (r.is_ok(), r.as_ref().map(|ms| ms.len() == 1 && mask_ok(ms, exp)).unwrap_or(false)) }).collect()),
+                            }
+                        } else {
+                            let ri = to_r(&inst);
+                            let stmt = ri.statement();
+                            match ri.prove(&mut rng) {
+                                Err(_) => (false, vec![]),
+                                Ok(proof) => (true, rrun::ACTIONS.iter().map(|a| { let r = rrun::verify_one(&ri, &stmt, &proof, *a); let exp = if *a != VerifyAction::VerifyOnly && ri.seed.is_some() { Some(&ri.blindings[0]) } else { None }; (r.is_ok(), r.as_ref().map(|ms| ms.len() == 1 && mask_ok(ms, exp)).unwrap_or(false)) }).collect()),
+                            }
+                        };
+                        let g = if ristretto { "ristretto" } else { "fm" };
+                        out.oracle(&format!("{}:valid-witness-proved", prop), proved, &format!("{} group={}", key, g), "the prover refused a valid (statement, witness) pair");
+                        if proved {
+                            out.oracle(&format!("{}:honest-proof-accepted", prop), verdicts.iter().all(|x| x.0), &format!("{} group={}", key, g), &format!("verdicts per mode {:?}", verdicts.iter().map(|x| x.0).collect::<Vec<_>>()));
+                            out.oracle(&format!("{}:mask-equals-blinding", prop), verdicts.iter().all(|x| !x.0 || x.1), &format!("{} group={}", key, g), "the recovered mask is not the blinding vector (or a mask was returned where none is due)");
+                        }
+                    }
+                }
+            }
+        }
+    }
+    out.stat("coincidence_combinations", count);
+    count
+}
+
 pub fn c01(opts: &Opts, out: &mut Out) {
     let mut rng = chacha(opts.seed, 1);
+    coincidences(opts, out, "C01");
     let lim_fm = if opts.thorough { 1024 } else { 256 };
     let lat = lattice(opts, lim_fm, &mut rng);
     let mut cfgs = std::collections::BTreeSet::new();
